@@ -178,10 +178,16 @@ def order_programs():
     yield 'order/args_left_to_right', mk(_show(Bin('*', Index(q, arg(0)), Bin('%', Lit(INT, 100), arg(1)))))
 
 
-def vla_programs():
-    """v[0] = length"""
+def vla_programs(len_lit=None):
+    """v[0] = length, or the integer literal len_lit written into the source (a constant the compiler may reason about)"""
     for el in (INT, BYTE, BOOL, STRING):
-        body = [_mark('<'), VLA('a', el, arg(0)), _mark('+'), W(Len(Var('a', Arr(el, False)))), _mark('>'), _mark('!')]
+        if len_lit is None:
+            n = arg(0)
+        elif len_lit < 0:
+            n = Un('-', Lit(INT, -len_lit, keep=True))
+        else:
+            n = Lit(INT, len_lit, keep=True)
+        body = [_mark('<'), VLA('a', el, n), _mark('+'), W(Len(Var('a', Arr(el, False)))), _mark('>'), _mark('!')]
         yield f'vla/{el}', Program([], [Func('@is_you', [('v', Arr(INT, True), False)], EMPTY, body)])
 
 
@@ -211,6 +217,18 @@ def nonlocal_programs():
                               [For(Decl('j', INT, Lit(INT, 0, keep=True)), Bin('<', Var('j', INT), Bin('-', K, Lit(INT, 55))),
                                    OpAssign(Var('j', INT), '+', Lit(INT, 9, keep=True)), [Block([pre()])])])],
         'in_block': [Block([Block([pre()])])],
+        'return_inside_preempt': [Preempt([_mark('p'), Ret(None)]), _mark('n')],
+        # skipping the block must itself end in defeat INSIDE the function for the block to be taken at all (the function's
+        # own guarded return is an error, not a halt): then the return inside the block is the one that needs the guard
+        'return_inside_preempt_then_defeat': [Preempt([_mark('p'), Ret(None)]), _mark('n'), ExprStmt(Call('!is_defeat', []))],
+        'return_inside_preempt_then_conditional_defeat': [If(Bin('<', K, Lit(INT, 1000)), [Preempt([_mark('p'), Ret(None)])]), _mark('n'),
+                                                          ExprStmt(Call('!truth_is_defeat', [Bin('!=', K, Lit(INT, 60))]))],
+        'return_inside_preempt_in_loop_then_defeat': [For(Decl('i', INT, Lit(INT, 0, keep=True)), Bin('<', Var('i', INT), Lit(INT, 3, keep=True)),
+                                                          OpAssign(Var('i', INT), '+', Lit(INT, 1, keep=True)),
+                                                          [If(Bin('==', Bin('+', Var('i', INT), K), Lit(INT, 4)), [Preempt([_mark('p'), Ret(None)])])]),
+                                                      ExprStmt(Call('!is_defeat', []))],
+        'return_inside_preempt_in_if': [If(Bin('<', K, Lit(INT, 1000)), [Preempt([_mark('p'), If(Bin('>', K, Lit(INT, 2)), [Ret(None)])])]), _mark('n')],
+        'return_inside_preempt_in_loop': [While(Bin('>', K, Lit(INT, 50)), [Preempt([_mark('p'), Ret(None)]), OpAssign(K, '-', Lit(INT, 20))]), _mark('n')],
         'after_return_guard': [If(Bin('>', K, Lit(INT, 500)), [Ret(None), pre()])],
     }
     for sn, body in shapes.items():
@@ -246,7 +264,7 @@ def nonlocal_programs():
             body = [_mark('d')] + pre_st + [Ret(Bin('*', Call(leaf, [K]), Lit(INT, 2)))]
         elif rs == 'recursive':
             body = [_mark('d')] + pre_st + [If(Bin('<=', K, Lit(INT, 0)), [Ret(Lit(INT, 0))]), If(Bin('==', K, Lit(INT, 1)), [Ret(Call(leaf, [K]))]),
-                                           Ret(Bin('+', Call('!dfv', [Bin('-', K, Lit(INT, 2))], t=INT), Lit(INT, 1)))]
+                                           Ret(Bin('+', Call('!dfv', [Bin('-', K, Lit(INT, 49))], t=INT), Lit(INT, 1)))]
         elif rs == 'sum_of_calls':
             body = [_mark('d')] + pre_st + [Ret(Bin('+', Call(leaf, [Lit(INT, 5)]), Call(leaf, [K])))]
         else:
